@@ -8,6 +8,7 @@
 import Aqv.Lemmas.RlpCanon
 import Aqv.Lemmas.RlpTyped
 import Aqv.Lemmas.RlpStream
+import Aqv.Lemmas.Translated.Rlp
 namespace Aqv.Props.C11
 open Aqv Aqv.Rlp
 
@@ -391,16 +392,24 @@ theorem stream_invariant (bs : Bytes) (it : Item) (rest : Bytes)
   obtain ⟨s', h1, h2, h3, h4, _, h5, _⟩ := (RlpStream.first_decode bs).1 it rest h
   exact ⟨s', h1, h2, h3, h4, h5⟩
 
--- non-vacuity / concrete behaviour of the machine
-example : (RlpStream.decodeBytes []).1 = .error .eof := by rfl
-example : (RlpStream.decodeBytes [0xc3, 0x01, 0x02, 0x03]).1 = .ok (.list [.str [1], .str [2], .str [3]]) := by rfl
-example : (RlpStream.decodeBytes [0xc3, 0x01, 0x02, 0x03]).2.alloc = 3 := by rfl
-example : (RlpStream.decodeBytes [0x01, 0x01]).1 = .error .moreThanOneValue := by rfl
-example : (RlpStream.decodeStream [0x01, 0x01]).1 = .error .moreThanOneValue := by rfl
-example : (RlpStream.decodeBytes [0xc2, 0x83, 0x01]).1 = .error .elemTooLarge := by rfl
-example : (RlpStream.decodeBytes [0xb9, 0xff, 0xff, 0x01]).1 = .error .valueTooLarge := by rfl
-example : (RlpStream.decodeBytes [0xb9, 0xff, 0xff, 0x01]).2.alloc = 0 := by rfl
-example : (RlpStream.decodeBytes [0xc1, 0xc1]).1 = .error .elemTooLarge := by rfl
+-- non-vacuity: hypotheses of `stream_more_than_one_value`
 example : (Item.list [.str [1]]).sizeOk = true ∧ ([0x05] : Bytes) ≠ [] := by decide
+
+/-! ### tie by translation (T-gen `translated`, DESIGN 2.2 mini-translator): rlp.headsize -/
+
+/-- the go/ssa body of rlp.headsize, translated to Lean on every run (`Aqv.Gen.Translated.headsize`, regenerated from the tree
+    under test), returns exactly the length of the header the model's `header` (puthead) emits, for every tag base and every
+    size.  `rlp.intsize` is a loop (outside the translator's grammar, refused on every run as a self-test): it is the explicit
+    parameter `intsize`, characterised by `IntsizeSpec` — the number of bytes of the minimal big-endian size — which the
+    differential harness checks on the real function. -/
+theorem headsize_code_is_model (intsize : UInt64 → Int64) (hint : Aqv.Lemmas.Translated.IntsizeSpec intsize)
+    (base : Nat) (size : UInt64) :
+    (Aqv.Gen.Translated.headsize intsize size).toInt = ((header base size.toNat).length : Int) :=
+  Aqv.Lemmas.Translated.headsize_translated_eq intsize hint base size
+
+example : Aqv.Lemmas.Translated.IntsizeSpec Aqv.Lemmas.Translated.intsizeRef := Aqv.Lemmas.Translated.intsizeRef_spec
+example : Aqv.Gen.Translated.headsize Aqv.Lemmas.Translated.intsizeRef 55 = 1 ∧
+    Aqv.Gen.Translated.headsize Aqv.Lemmas.Translated.intsizeRef 56 = 2 ∧
+    Aqv.Gen.Translated.headsize Aqv.Lemmas.Translated.intsizeRef 1024 = 3 := by decide
 
 end Aqv.Props.C11
